@@ -6,6 +6,7 @@ import (
 	"encoding/binary"
 	"encoding/hex"
 	"fmt"
+	"strings"
 
 	"github.com/Eyevinn/mp4ff/bits"
 	"github.com/Eyevinn/mp4ff/mp4"
@@ -211,4 +212,83 @@ func sampleMeta(s Sample) string {
 func ShortHash(b []byte) string {
 	h := sha256.Sum256(b)
 	return hex.EncodeToString(h[:8])
+}
+
+// ReparseSenc re-reads the senc box of every fragment of a decoded file from the raw bytes with the
+// per-sample IV size that the init segment's tenc declares. mp4ff's DecodeFile has no init segment at hand
+// and guesses the IV size (it takes the first of 0, 8, 16 that does not run out of bytes), which mis-parses
+// some perfectly valid boxes; decrypting with such a guess fails or panics.
+func ReparseSenc(f *mp4.File, raw []byte, ivSize byte) error {
+	var frags []*mp4.Fragment
+	for _, s := range f.Segments {
+		frags = append(frags, s.Fragments...)
+	}
+	return ReparseSencFrags(frags, raw, ivSize)
+}
+
+// ReparseSencFrags is ReparseSenc for the fragments (in order) decoded from raw.
+func ReparseSencFrags(frags []*mp4.Fragment, raw []byte, ivSize byte) error {
+	// offsets of the senc boxes in raw, in fragment order
+	var offs []int
+	pos := 0
+	for pos+8 <= len(raw) {
+		sz := int(binary.BigEndian.Uint32(raw[pos:]))
+		if sz < 8 || pos+sz > len(raw) {
+			break
+		}
+		if string(raw[pos+4:pos+8]) == "moof" {
+			for p := pos + 8; p+8 <= pos+sz; {
+				s2 := int(binary.BigEndian.Uint32(raw[p:]))
+				if s2 < 8 {
+					break
+				}
+				if string(raw[p+4:p+8]) == "traf" {
+					for q := p + 8; q+8 <= p+s2; {
+						s3 := int(binary.BigEndian.Uint32(raw[q:]))
+						if s3 < 8 {
+							break
+						}
+						if string(raw[q+4:q+8]) == "senc" {
+							offs = append(offs, q)
+						}
+						q += s3
+					}
+				}
+				p += s2
+			}
+		}
+		pos += sz
+	}
+	k := 0
+	{
+		for _, fr := range frags {
+			if fr.Moof == nil || fr.Moof.Traf == nil || fr.Moof.Traf.Senc == nil {
+				continue
+			}
+			if k >= len(offs) {
+				return fmt.Errorf("senc boxes in the decoded file and in the raw bytes do not match")
+			}
+			o := offs[k]
+			k++
+			box, err := mp4.DecodeBox(uint64(o), bytes.NewReader(raw[o:]))
+			if err != nil {
+				return err
+			}
+			senc, ok := box.(*mp4.SencBox)
+			if !ok {
+				return fmt.Errorf("not a senc box at %d", o)
+			}
+			traf := fr.Moof.Traf
+			if err := senc.ParseReadBox(ivSize, traf.Saiz); err != nil && !strings.Contains(err.Error(), "already parsed") {
+				return err // ("already parsed": boxes that need no guess are parsed while they are decoded)
+			}
+			for i, c := range traf.Children {
+				if c == mp4.Box(traf.Senc) {
+					traf.Children[i] = senc
+				}
+			}
+			traf.Senc = senc
+		}
+	}
+	return nil
 }
